@@ -11,19 +11,19 @@ import (
 )
 
 func init() {
-	register(&Rule{Name: "POOL-TYPE", Floor: 4,
+	register(&Rule{Name: "POOL-TYPE", Floor: 3,
 		Doc: "for every sync.Pool of the module, New and every Put supply the type every Get asserts",
 		Run: rulePoolType})
-	register(&Rule{Name: "POOL-RESET", Floor: 5,
+	register(&Rule{Name: "POOL-RESET", Floor: 3,
 		Doc: "every object taken from a pool is reset before any other use ((*bp)[:0], buf.Reset(), z.Reset(x))",
 		Run: rulePoolReset})
-	register(&Rule{Name: "POOL-ESCAPE", Floor: 4,
+	register(&Rule{Name: "POOL-ESCAPE", Floor: 3,
 		Doc: "memory of a pooled buffer (bytesPool, bufPool) flows only into calls that do not retain it and back into the pool; it is never stored into a field, global, channel, goroutine, message value or returned to a caller outside the transport",
 		Run: rulePoolEscape})
-	register(&Rule{Name: "POOL-UAP", Floor: 4,
+	register(&Rule{Name: "POOL-UAP", Floor: 3,
 		Doc: "no use of a pooled object (or of memory obtained from it) is reachable after a non-deferred Put of it",
 		Run: rulePoolUAP})
-	register(&Rule{Name: "POOL-ONCE", Floor: 4,
+	register(&Rule{Name: "POOL-ONCE", Floor: 3,
 		Doc: "a pooled object is returned to its pool at most once on any path",
 		Run: rulePoolOnce})
 	register(&Rule{Name: "SENDRECV-DISJOINT", Floor: 3,
